@@ -107,7 +107,7 @@ func (g *c03gen) fault() string {
 	g.faultDone = true
 	switch g.faultClass {
 	case "unknown-name":
-		return g.pick("Nope", "i", "Strx", "ints")
+		return g.pick("Nope", "i", "Strx", "ints", "Amb", "Mi", "Ms")
 	case "unknown-field":
 		return g.pick("St.Nope", "PSt.Z", "Sts[0].x", "St.y")
 	case "unknown-func":
@@ -442,7 +442,7 @@ func (g *c03gen) nestedTop(depth int) string {
 // the error paths of the checker — which error is reported first, where, and how the tree is annotated.
 func (g *c03gen) untyped(d int) string {
 	atoms := []string{"I", "I8", "U64", "F64", "F32", "B", "Str", "Any", "Ints", "Strs", "Anys", "Arr", "MSI", "MII", "St", "PSt", "Sts", "My",
-		"Fi", "Nope", "1", "2", "0", "1.5", "\"a\"", "\"k\"", "true", "false", "nil"}
+		"Fi", "Mi", "Amb", "Nope", "1", "2", "0", "1.5", "\"a\"", "\"k\"", "true", "false", "nil"}
 	if len(g.closure) > 0 {
 		atoms = append(atoms, "#", "#", "#")
 	}
@@ -469,7 +469,7 @@ func (g *c03gen) untyped(d int) string {
 		for i := range args {
 			args[i] = sub()
 		}
-		return fmt.Sprintf("%s(%s)", g.pick("Fi", "Fs", "Ff", "Fv", "Fa", "Fb", "Mi", "Ms", "Mp", "Nope", "I", "Any"), strings.Join(args, ", "))
+		return fmt.Sprintf("%s(%s)", g.pick("Fi", "Fs", "Ff", "Fv", "Fa", "Fb", "Mi", "Ms", "Mp", "Nope", "I", "Any", "Fx", "Fy", "Fn", "F2", "Mx"), strings.Join(args, ", "))
 	case 8:
 		n := g.rng.Intn(2)
 		args := make([]string, n)
@@ -568,8 +568,11 @@ func errClassOf(msg string) string {
 func runErrClass(msg string) string {
 	has := func(s string) bool { return strings.Contains(msg, s) }
 	switch {
-	case has("index out of range"), has("integer divide by zero"), has("nil pointer"), has("invalid memory address"),
-		has("error parsing regexp"), has("memory budget exceeded"), has("slice bounds out of range"), has("cannot fetch") && has("<nil>"):
+	// bounds of every kind are value-dependent, whoever reports them (the runtime, reflect.Value.Index /
+	// Slice / Slice3, expr's own fetch and slice): "index out of range", "slice bounds out of range",
+	// "slice index out of bounds", "string index out of bounds", "array index out of range"
+	case has("out of range"), has("out of bounds"), has("integer divide by zero"), has("nil pointer"), has("invalid memory address"),
+		has("error parsing regexp"), has("memory budget exceeded"), has("cannot fetch") && has("<nil>"):
 		return "value"
 	case has("invalid operation"), has("cannot fetch"), has("cannot use"), has("interface conversion"), has("reflect:"),
 		has("reflect.Value"), has("cannot get"), has("cannot slice"), has("invalid argument for len"), has("is not assignable"):
@@ -694,7 +697,9 @@ func runC03(c *Ctx) {
 		src string
 		ex  int
 	}{{"nil", 1}, {"Fs(1)", 0}, {"filter(Ints, {# > 1})", 0}, {"map(Ints, {# + 1})", 0}, {"MSI[1]", 0}, {"Ints[\"a\"]", 0},
-		{"My == 1", 0}, {"map(Ints, {nil})", 0}, {"Ff(+U64)", 0}, {"Fi(F64 + 1)", 0}, {"Arr[:]", 0}, {"len(Arr[1:2])", 0}, {"{(1): 2}", 0}, {"MSI[:]", 0}, {"F32 in MII", 0}, {"Any?.x", 1}, {"1 + 2", 2}, {"I8 + 1", 2}, {"F32 * 2", 3}, {"I", 3}, {"Str", 2}, {"B", 1}, {"I", 1}} {
+		{"My == 1", 0}, {"map(Ints, {nil})", 0}, {"Ff(+U64)", 0}, {"Fi(F64 + 1)", 0}, {"Arr[:]", 0}, {"len(Arr[1:2])", 0}, {"{(1): 2}", 0}, {"MSI[:]", 0}, {"F32 in MII", 0}, {"Any?.x", 1}, {"1 + 2", 2}, {"I8 + 1", 2}, {"F32 * 2", 3}, {"I", 3}, {"Str", 2}, {"B", 1}, {"I", 1},
+		{"Fx(1, \"a\")", 0}, {"Fx()", 0}, {"Fy(1)", 0}, {"Mx(1, 2)", 0}, {"Mx()", 0}, {"Fn()", 0}, {"F2()", 0}, {"Fx(Nope)", 0},
+		{"St?.Nope()", 0}, {"St.Nope()", 0}, {"PSt?.Nope(1)", 0}, {"Any?.Nope()", 0}, {"St?.Nope", 0}, {"Nope?.x", 0}, {"Sts[0]?.Nope(Nope)", 0}} {
 		cases = append(cases, c03Case{env: envs[0], src: s.src, expect: s.ex, static: false, goal: nil})
 	}
 
@@ -986,7 +991,8 @@ func c03TypeErrKey(src, rerr string) string {
 	case strings.Contains(rerr, "slice of unaddressable array"):
 		return "slice-of-array"
 	}
-	return "other"
+	// not one of the known classes: the raw message is part of the key, so that a sweep shows what it is
+	return "other:" + firstLine16(rerr)
 }
 
 func compileRunOpts(src string, env interface{}, opts []expr.Option) (rv realVerdict) {
